@@ -122,6 +122,7 @@ class Ctx:
         self.scale = scale
         self.vars = {}  # name -> (kind, shape, [z3 vars])
         self.calls = []
+        self._warm_seen = set()
         self.claims = []  # native mode: (name, bool)
         self.drawn = {}
         self.rng_draws = []  # (name, law, tensor) for every torch.rand*/randn* call made by the code under contract
@@ -257,6 +258,12 @@ class Ctx:
 
     # -- calling the code under contract ------------------------------------------------------------
     def call(self, fn, *args, **kw):
+        # history: an object that the contract module used once natively before (codes.warm) carries the outcome of that earlier
+        # call; it is a clause of every obligation that calls one of its methods
+        owner = getattr(fn, "__self__", None)
+        if owner is not None and hasattr(owner, "_vk_warm_exc") and id(owner) not in self._warm_seen:
+            self._warm_seen.add(id(owner))
+            self.ensure("earlier_call_with_another_batch_size_returned", owner._vk_warm_exc is None, note=owner._vk_warm_exc or "")
         a2 = _copy_arg(args)
         k2 = _copy_arg(kw)
         try:
@@ -302,18 +309,15 @@ class Ctx:
             rec["nf"] += 1
             return
         neg = z3.Not(cb) if not isinstance(cb, bool) else z3.BoolVal(True)
+        ex.want_model = rec["refuted"] is None
         r = ex._check(neg)
+        ex.want_model = False
         rec["solver_s"] += time.time() - t0
         if r == z3.unsat:
             rec["smt"] += 1
-        elif r == z3.sat:
+        elif r == z3.sat and (rec["refuted"] is not None or ex.last_model is not None):
             if rec["refuted"] is None:
-                ex.solver.push()
-                ex.solver.add(neg)
-                ex.solver.check()
-                m = ex.solver.model()
-                rec["refuted"] = self.extract(m)
-                ex.solver.pop()
+                rec["refuted"] = self.extract(ex.last_model)
         else:
             rec["unknown"] += 1
             rec["reason"] = ex.solver.reason_unknown()
